@@ -625,9 +625,74 @@ pub struct CrashPlan {
 	pub gen2_cap: usize,
 }
 
+/// Value-log family (C11): values on both sides of the separation threshold, 64-byte log files.
+pub fn vlog_workloads(maxlen: usize) -> Vec<Vec<Wop>> {
+	let mut out = vec![];
+	fn big(i: usize, n: usize) -> Vec<u8> {
+		let mut v = format!("{i:02}").into_bytes();
+		while v.len() < n {
+			v.push(b'a' + (v.len() % 26) as u8);
+		}
+		v
+	}
+	fn alphabet(i: usize) -> Vec<Wop> {
+		vec![
+			Wop::W(vec![Write::set(b"a", &big(i, 200))], true),
+			Wop::W(vec![Write::set(b"b", &big(i, 9))], false),
+			Wop::W(vec![Write::set(b"a", &big(i, 9)), Write::set(b"b", &big(i, 70))], true),
+			Wop::W(vec![Write::new(Kind::Delete, b"a", b"")], true),
+			Wop::P(Phys::FlushAll),
+			Wop::P(Phys::Compact),
+			Wop::P(Phys::Reopen),
+		]
+	}
+	fn rec(maxlen: usize, cur: &mut Vec<Wop>, out: &mut Vec<Vec<Wop>>) {
+		// only lists that flush something are interesting here
+		if cur.iter().any(|o| matches!(o, Wop::P(Phys::FlushAll) | Wop::P(Phys::Reopen))) {
+			out.push(cur.clone());
+		}
+		if cur.len() == maxlen {
+			return;
+		}
+		for op in alphabet(cur.len()) {
+			if cur.is_empty() && !matches!(op, Wop::W(..)) {
+				continue;
+			}
+			cur.push(op);
+			rec(maxlen, cur, out);
+			cur.pop();
+		}
+	}
+	rec(maxlen, &mut vec![], &mut out);
+	out.sort_by_key(|l| l.len());
+	out
+}
+
 pub fn plan(tier: Tier, focus: &str) -> CrashPlan {
 	let mut workloads = vec![];
 	let base = OptSet::base("L2");
+	if focus == "C11" {
+		let maxlen = if tier == Tier::Quick { 3 } else { 5 };
+		let mut opts = vec![OptSet::base("L2-vlog8-64").with_vlog(8, 64)];
+		if tier == Tier::Thorough {
+			opts.push(OptSet::base("L2-versioned-index-vlog64").versioned(0, true).with_vlog(0, 64));
+		}
+		for opt in opts {
+			for ops in vlog_workloads(maxlen) {
+				workloads.push(Workload {
+					opt: opt.clone(),
+					ops,
+					forced_height: 1,
+				});
+			}
+		}
+		return CrashPlan {
+			workloads,
+			power: true,
+			v2: true,
+			gen2_cap: if tier == Tier::Quick { 40 } else { 1500 },
+		};
+	}
 	// C07 runs this after its sequential part: its quick tier uses the shorter family
 	let maxlen = match (tier, focus) {
 		(Tier::Quick, "C07") => 2,
@@ -812,7 +877,12 @@ pub fn run_into(report: &mut Report, property: &'static str, tier: Tier, cap_s: 
 	let mut per_class: BTreeMap<String, u64> = BTreeMap::new();
 	let mut other_props: BTreeMap<String, u64> = BTreeMap::new();
 	let mut seen_class = HashSet::new();
-	for (_, f, rp) in findings {
+	for (_, mut f, rp) in findings {
+		if property == "C11" {
+			// on value-log workloads every recovery failure is a C11 failure
+			f.class = format!("crash:{}:{}", f.property, f.class);
+			f.property = "C11";
+		}
 		if f.property != property {
 			*other_props.entry(format!("{}:{}", f.property, f.class)).or_default() += 1;
 			continue;
@@ -881,7 +951,7 @@ pub fn replay(property: &str, r: &J) -> i32 {
 			model.commits.push(ws);
 		}
 		let rot = rotation_triggers(&t.tr.trace);
-		Ok(judge(&wl, &t.tr.trace, &spec, &rec, &model, &BTreeMap::new(), 1, &rot).into_iter().filter(|f| f.property == property).map(|f| format!("class={} {}", f.class, f.text)).collect())
+		Ok(judge(&wl, &t.tr.trace, &spec, &rec, &model, &BTreeMap::new(), 1, &rot).into_iter().filter(|f| f.property == property || property == "C11").map(|f| if property == "C11" { format!("class=crash:{}:{} {}", f.property, f.class, f.text) } else { format!("class={} {}", f.class, f.text) }).collect())
 	};
 	let a = run();
 	let b = run();
